@@ -4,7 +4,10 @@
    rationals) with it within the relative bound max(n,1) * 2^-50 (n = number of messages):
    the load, the rate and share of every message (by key), and the rates position by position
    (the model's list is sorted by non-increasing rate).
-     L;<baud>;<def>;<ifaces>;<obs>                                                            *)
+     L;<baud>;<defs>;<builder>;<ifaces>;<obs>~<obs>...
+   one line per bus; CalculateBusLoad was called once per default on the same bus, the model
+   `session` gives one result per default; builder, node ids and message ids are ignored (the model
+   does not see them).                                                                         *)
 module BZ = Z   (* zarith; the extracted model defines its own module Z *)
 module BQ = Q
 open C17_model
@@ -31,8 +34,11 @@ let fields s = List.filter (fun x -> x <> "") (String.split_on_char ' ' s)
 let parse_ifaces s : msg list list =
   if s = "-" then []
   else List.map (fun is ->
+      let is = (match String.index_opt is '=' with
+          | Some i -> String.sub is (i + 1) (String.length is - i - 1)   (* drop `<node id>=` *)
+          | None -> is) in
       List.map (fun t -> match String.split_on_char ':' t with
-          | [k; sz; cy] -> { m_key = cz k; m_size = cz sz; m_cycle = cz cy }
+          | k :: sz :: cy :: _ -> { m_key = cz k; m_size = cz sz; m_cycle = cz cy }
           | _ -> failwith ("bad message " ^ t)) (fields is))
       (String.split_on_char '|' s)
 
@@ -44,10 +50,9 @@ let within (x : BQ.t) (want : BQ.t) (n : int) : bool =
 
 let parse_q s = if s = "NaN" then None else Some (BQ.of_string s)
 
-let compare_case baud def ifaces obs : string option =
-  let b = { b_typ = Z0; b_baud = cz baud; b_ifaces = parse_ifaces ifaces } in
+let compare_call (b : bus) (model : bl_result) obs : string option =
   let n = List.length (bus_msgs b) in
-  match calculate_bus_load b (cz def), obs with
+  match model, obs with
   | BLErr ErrIsNegative, "ERR:neg" -> None
   | BLErr ErrIsZero, "ERR:zero" -> None
   | BLErr ErrIsNegative, _ -> Some "model refuses (negative default cycle time)"
@@ -104,7 +109,22 @@ let () =
       incr n;
       let res =
         match String.split_on_char ';' line with
-        | ["L"; baud; def; ifaces; obs] -> (try compare_case baud def ifaces obs with Failure m -> Some ("driver: " ^ m))
+        | ["L"; baud; defs; _builder; ifaces; obs] ->
+          (try
+             let b = { b_typ = Z0; b_baud = cz baud; b_ifaces = parse_ifaces ifaces } in
+             let ds = List.map cz (String.split_on_char ',' defs) in
+             let models = session b ds in
+             let os = String.split_on_char '~' obs in
+             if List.length os <> List.length models then Some "number of recorded calls differs from the number of defaults"
+             else
+               List.fold_left (fun acc (i, (m, o)) ->
+                   match acc with
+                   | Some _ -> acc
+                   | None -> (match compare_call b m o with
+                       | None -> None
+                       | Some why -> Some (Printf.sprintf "call %d: %s" i why)))
+                 None (List.mapi (fun i x -> (i, x)) (List.combine models os))
+           with Failure m -> Some ("driver: " ^ m))
         | _ -> Some "PANIC-OR-MALFORMED line (the model is total)" in
       match res with
       | None -> ()
